@@ -204,9 +204,9 @@ PROPS["C08"] = {
                       "pool, open/cached/pending/expired flags; live readers; the tree) mirroring handleRequest / NewReader / bigFileReader / both "
                       "Close / decReadersCount (its panic is a fault outcome) / cleanCache statement by statement; proved by induction over EVERY "
                       "op sequence: no_refcount_panic, readers_count_is_live_readers, count_never_negative, file_closed_only_when_unreferenced, "
-                      "live_reader_file_open, failed_open_leaves_counts_unchanged, pooled_reader_not_live, reader_in_one_place; the list of count/Release/cache-map sites of ALL functions of fs.go "
+                      "live_reader_file_open, failed_open_leaves_counts_unchanged, pooled_reader_not_live, reader_in_one_place, reopened_file_is_cached_file; the list of count/Release/cache-map sites of ALL functions of fs.go "
                       "is regenerated and pinned (model_matches_gen_refcounts). Requests are sequential in the model (cacheLock). "
-                      "Known finding C08-reopen-by-name (bigFileReader re-opens by name). "
+                      "reopened_file_is_cached_file: every reader (held or pooled) reads the file object its fsFile was made from (os.SameFile check after the re-open by name, 435a1ed; the former finding is a regression example and corpus case). "
                       "Partial: compression, index page generation and the OS are exercised by the "
                       "correspondence only; path containment is C07's theorem and is only exercised here, for StaticFS routes (ctx.File has no root). "
                       "Trusted: Lean kernel, gen/c08.go (go/ast statement skeletons), harness/driver.",
